@@ -4,7 +4,7 @@
    callers, EVERY schedule of tier calls and lock acquisitions: the completed operations, in completion order, form a legal
    history of ONE register (no stale read, no resurrected key, no lost list update); whenever the key lock is free the cache
    tier holds nothing or exactly what the persistent tier holds. *)
-From TX Require Import Model.Hybrid Proofs.Hybrid Proofs.HybridOne.
+From TX Require Import Model.Hybrid Model.HybridNodes Proofs.Hybrid Proofs.HybridOne.
 From Coq Require Import Lia.
 
 (* ---- frame lemmas ---- *)
@@ -572,5 +572,39 @@ Section Lock.
     destruct (lock_all_schedules w ts sched Hsp Hh HL Hco Hts) as (st & Hlin & Hcv & Hfree & _ & _ & Hs).
     exists st. split; [exact Hlin|split; [|exact Hs]].
     intros EL. destruct (Hfree EL) as [Hp _]. apply free_views; assumption.
+  Qed.
+
+  (* ---- "cache entry lost" (TTL expiry / eviction / restart of the cache tier) ---- *)
+  Lemma drop_cache_tiers w : tget (drop_cache w k) ct k = None /\ tget (drop_cache w k) TPers k = tget w TPers k.
+  Proof.
+    unfold drop_cache. split; [|reflexivity].
+    unfold ct, cache_tier_for_key, sp_cache. destruct (category T k), (has_shared c); cbn; unfold supd; rewrite keq_refl; reflexivity.
+  Qed.
+
+  (* on a two-tier key, in a coherent state, losing the cache copy changes nothing the facade shows, and the state stays coherent *)
+  Lemma cache_loss_invisible w : two_tier T c k = true -> coherent T c w k ->
+    visible T c (drop_cache w k) k = visible T c w k /\ coherent T c (drop_cache w k) k.
+  Proof.
+    intros E2 Hco. destruct (drop_cache_tiers w) as [EC EP]. unfold coherent, visible in Hco |- *. fold ct in Hco |- *. rewrite EC, EP, E2.
+    split; [|intros _; left; reflexivity].
+    destruct (Hco E2) as [H|H]; rewrite H; [reflexivity|]. destruct (tget w TPers k); reflexivity.
+  Qed.
+
+  (* ... which is the case in EVERY reachable state in which the key lock is free *)
+  Corollary cache_loss_invisible_all_schedules w ts sched :
+    two_tier T c k = true ->
+    w_spawned w = [] -> w_hist w = [] -> w_locks w k = false -> coherent T c w k ->
+    Forall idle_thread ts ->
+    w_locks (fst (hrun T c w ts sched)) k = false ->
+    exists st,
+      linearized (visible T c w k) (w_hist (fst (hrun T c w ts sched))) st /\
+      visible T c (fst (hrun T c w ts sched)) k = st /\
+      visible T c (drop_cache (fst (hrun T c w ts sched)) k) k = st /\
+      coherent T c (drop_cache (fst (hrun T c w ts sched)) k) k.
+  Proof.
+    intros E2 Hsp Hh HL Hco Hts EL.
+    destruct (lock_all_schedules_spec w ts sched Hsp Hh HL Hco Hts) as (st & Hlin & Hfree & _).
+    destruct (Hfree EL) as [Hv Hc]. destruct (cache_loss_invisible _ E2 Hc) as [Hd Hdc].
+    exists st. rewrite Hd. auto.
   Qed.
 End Lock.
